@@ -223,6 +223,27 @@ def build(tier="quick", seed=0):
 
     add("C01.sequence[two same-name descriptors interleaved]", th_sequence, lambda w: {"call": "c01_sequence", "args": {"x": w.get("x", 0)}}, wit=lambda m_, p: {"x": model_value(m_, x)}, mode="one concrete history shape, symbolic values (count / order for all histories: C04 invariant)")
 
+    def th_alias():
+        # the same record type declared with two spellings of a field type (the alias names are whitelisted types of their own): each record keeps ITS field list
+        A = it.call(RD, ["c01/alias", [("string", "s"), ("net.ipaddress", "ip"), ("string[]", "l")]], {})
+        B = it.call(RD, ["c01/alias", [("wstring", "s"), ("net.IPAddress", "ip"), ("wstring[]", "l")]], {})
+        it.assume(z3.InRe(sv, ENCODABLE))
+        rs = [it.call(A, [], {"s": SStr(sv), "ip": "1.2.3.4", "l": ["a"]}), it.call(B, [], {"s": SStr(sv), "ip": "1.2.3.4", "l": ["a"]}), it.call(A, [], {"s": "x", "ip": "2001:db8::1", "l": []}), it.call(B, [], {"s": "y", "ip": None, "l": ["b", "c"]})]
+        return [deep_obs(it, r) for r in rs], roundtrip(rs)
+
+    add("C01.sequence[one type name declared with alias spellings of its field types]", th_alias, lambda w: {"call": "c01_alias", "args": {"s": w.get("s", "")}}, wit=lambda m_, p: {"s": model_value(m_, sv)}, mode="one concrete history shape, symbolic values")
+
+    def th_same_instant():
+        # timestamps that denote the same instant with different UTC offsets (equal and hash-equal as Python values) in one history, as field values, list elements and _generated
+        D = it.call(RD, ["c01/ts", [("datetime", "ts"), ("datetime[]", "tl"), ("varint", "n")]], {})
+        inst = ["DT(2020, 1, 1, 12, 0, 0, 5, tzinfo=TZ(TD(0)))", "DT(2020, 1, 1, 13, 0, 0, 5, tzinfo=TZ(TD(hours=1)))", "DT(2020, 1, 1, 7, 0, 0, 5, tzinfo=TZ(TD(hours=-5)))", "DT(2020, 1, 1, 17, 30, 0, 5, tzinfo=TZ(TD(hours=5, minutes=30)))"]
+        vals = [pyvalue(s_) for s_ in inst]
+        rs = [it.call(D, [], {"ts": v, "tl": [vals[(i + 1) % 4], vals[(i + 2) % 4]], "n": SInt(x), "_generated": vals[(i + 3) % 4]}) for i, v in enumerate(vals)]
+        rs.append(it.call(D, [], {"ts": vals[0], "tl": [], "n": SInt(y), "_generated": vals[0]}))
+        return [deep_obs(it, r) for r in rs], roundtrip(rs)
+
+    add("C01.sequence[timestamps of one instant with different UTC offsets]", th_same_instant, lambda w: {"call": "c01_same_instant", "args": {"x": w.get("x", 0)}}, wit=lambda m_, p: {"x": model_value(m_, x)}, mode="one concrete history shape, symbolic values")
+
     def th_nested():
         A = it.call(RD, ["c01/a", [("varint", "n")]], {})
         N = it.call(RD, ["c01/nest", [("record", "r"), ("record[]", "rs"), ("varint", "k")]], {})
